@@ -992,6 +992,11 @@ func replay(w *rec.Writer, path string) {
 			if json.Unmarshal(line, &d) == nil {
 				runProbe(w, d)
 			}
+		case "sweep":
+			var d sweepDesc
+			if json.Unmarshal(line, &d) == nil {
+				runSweep(w, d)
+			}
 		case "medium":
 			var d mediumDesc
 			if json.Unmarshal(line, &d) == nil {
@@ -1022,6 +1027,7 @@ func main() {
 			{opRecv, false, 0}, {opSend, true, 1}, {opSend, true, 2}, {opClose, true, 0},
 			{opRecv, true, 0}, {opRecv, true, 0}, {opRecv, true, 0}, {opRecv, true, 0}}})
 	}
+	runSweeps(w)
 	for i := 0; i < nMed; i++ {
 		runMedium(w, genMedium(r.Fork()))
 	}
